@@ -32,7 +32,7 @@ type GenOpts struct {
 	// Want, when set, is consulted each time the generator has drawn that it
 	// wants one of the optional features "li-p", "li-trailing", "li-section-list", "tfoot",
 	// "spans", "first-row-colspan", "chrome-in-leaf", "nested-table",
-	// "a-block", "headerless-table", "bare-text"; returning false vetoes that
+	// "a-block", "headerless-table", "bare-text", "caption"; returning false vetoes that
 	// single use (the harness passes vr.Want to switch off features tied to a
 	// known finding while counting the vetoed draws).
 	Want func(feature string, drawn bool) bool `json:"-"`
@@ -375,8 +375,22 @@ func (g *gen) list(c ctx, level int) *Node {
 // table builds sections from a slot grid so that spans never overlap and every
 // row anchors at least one cell (HTML 4.9.12 table model: no overlapping
 // cells, no row without cells; a rowspan never leaves its row group).
+// noSection reports whether the table has no row group yet (a caption does not count).
+func noSection(t *Node) bool {
+	for _, k := range t.Kids {
+		if k.Tag != "caption" {
+			return false
+		}
+	}
+	return true
+}
+
 func (g *gen) table(c ctx) *Node {
 	t := g.el("table")
+	if !c.plain && g.want("caption", g.o.Tables, g.chance(5, "caption")) {
+		// the caption is the first child of the table (HTML 4.9.2); its text is content, in front of the rows
+		t.Kids = append(t.Kids, g.el("caption", g.text()))
+	}
 	cols := g.int(1, 3, "cols")
 	type secSpec struct {
 		tag  string
@@ -417,7 +431,7 @@ func (g *gen) table(c ctx) *Node {
 					if !g.chance(6, "thead-td") { // td is allowed in thead too (HTML 4.9.6)
 						tag = "th"
 					}
-				case forceTh && len(t.Kids) == 0 && r == 0:
+				case forceTh && noSection(t) && r == 0:
 					tag = "th"
 				case g.chance(4, "th"):
 					tag = "th"
@@ -430,7 +444,7 @@ func (g *gen) table(c ctx) *Node {
 							cs++
 						}
 						// a colspan in the very first row makes later rows longer than the first
-						if cs > 1 && len(t.Kids) == 0 && r == 0 && !g.want("first-row-colspan", true, true) {
+						if cs > 1 && noSection(t) && r == 0 && !g.want("first-row-colspan", true, true) {
 							cs = 1
 						}
 					} else { // column 0 never row-spans: every row keeps an anchored cell
